@@ -128,7 +128,7 @@ func runC19(c *core.Ctx, crashes bool) {
 		}
 	}
 
-	steps := 70 + ch.Int(90)
+	steps := (70 + ch.Int(90)) * c.Scale
 	for i := 0; i < steps; i++ {
 		c.Step("c19")
 		for _, n := range w.Nodes {
